@@ -73,6 +73,7 @@ class Contract:
     self.opaque_pure = True            # opaque callbacks do not touch gin state
     self.opaque_havoc = None           # or: set of fields they may change
     self.opaque_may_raise = True
+    self.opaque_model = None           # callable(ex, fn, args, kwargs, node) -> wrapper|None
     self.val_ops_may_raise = False     # truthiness/eq/in on opaque Val may raise
     self.checkpoints = {}              # anchor -> [Clause]
     self.ghost_init = None             # callable(ctx) to initialise ghost state
